@@ -37,10 +37,12 @@
    observes), for source optics that are focused and [transports] (putting the value read from m into m2 copies the
    focus bytes: C04_window_transports, C04_chain_transports, C04_bimap_transports, C04_join_transports); H2 as above,
    and again no disjointness of source foci.
+   BiMapI across widths (conversions by value, mutually inverse on the values of the narrower type only): C04_sresize_*,
+   C04_representable_range, C04_bimap_lawful_on, C04_bimapI_lawful_on, C04_bimapI_framed and the two one-sided corollaries.
    (Assembled by tools/scripts/gen_properties.py from tools/scripts/properties_src/C04.v.in.) *)
 From Coq Require Import List String Bool Arith ZArith.
 From Golem Require Import Optics.GenPrelude Optics.LayoutFacts Optics.HseqFacts Optics.LensFacts Optics.CombFacts Optics.FocusFacts
-  Optics.GenHseqFacts Optics.GenShapeFacts Optics.Examples Optics.CombWitness.
+  Optics.GenHseqFacts Optics.GenShapeFacts Optics.Examples Optics.CombWitness Optics.Conv Optics.ConvFacts.
 From GolemGen Require Import GenHseq GenOptics GenShape.
 Import ListNotations.
 Open Scope res_scope.
@@ -131,6 +133,82 @@ Theorem C04_bimap_framed : forall o f g nA nB fp, (forall b, List.length b = nB 
   framed o nA fp -> framed (BiMap o f g) nB fp.
 Proof. exact bimap_framed. Qed.
 Print Assumptions C04_bimap_framed.
+
+(* ---- BiMapI across widths.  optics.Int is a union of types of different sizes, so BiMapI[S, A, B] may expose an nA-byte
+        field as an nB-byte integer: B(a) / A(b) are then conversions BY VALUE, on bytes [sresize n] (Optics/Conv.v:
+        widening appends copies of the sign byte, narrowing keeps the low bytes; same width: the identity).
+        [sval v]: the two's complement value of the little-endian bytes v; [swrap n x]: x truncated to n bytes.
+        [representable k b]: b is the sign extension of its k low bytes, i.e. its value fits k bytes
+        (C04_representable_range).  The conversions are mutually inverse exactly on the values of the narrower type, so
+        such a BiMap is a lens on those: [lawful_on o n P G] = the laws of [lawful] with PutGet claimed for the values P and
+        GetPut on the arenas G. ---- *)
+(* sresize is Go's conversion between signed integer types: sign extended to infinite precision, then truncated *)
+Theorem C04_sresize_is_conversion : forall n v, bytes v -> v <> [] -> 0 < n -> sval (sresize n v) = swrap n (sval v).
+Proof. exact sval_sresize. Qed.
+Print Assumptions C04_sresize_is_conversion.
+
+Theorem C04_sresize_length : forall n v, List.length (sresize n v) = n.
+Proof. exact sresize_length. Qed.
+Print Assumptions C04_sresize_length.
+
+(* an nA-byte value converted to nB bytes and back is itself when it fits the narrower of the two types *)
+Theorem C04_sresize_inverse : forall nA nB a, List.length a = nA -> representable (Nat.min nA nB) a ->
+  sresize nA (sresize nB a) = a.
+Proof. exact sresize_inverse. Qed.
+Print Assumptions C04_sresize_inverse.
+
+Theorem C04_representable_range : forall k b, bytes b -> 0 < k <= List.length b ->
+  (representable k b <-> (- (256 ^ Z.of_nat k / 2) <= sval b < 256 ^ Z.of_nat k / 2)%Z).
+Proof. exact representable_range. Qed.
+Print Assumptions C04_representable_range.
+
+(* the laws without restriction are [lawful] *)
+Theorem C04_lawful_on_all : forall o n, lawful o n <-> lawful_on o n (fun _ => True) (fun _ _ => True).
+Proof. exact lawful_on_all. Qed.
+Print Assumptions C04_lawful_on_all.
+
+(* BiMap with g . f = id on the field contents PA and f . g = id on the values PB *)
+Theorem C04_bimap_lawful_on : forall o f g nA nB (PA PB : value -> Prop),
+  lawful o nA ->
+  (forall a, List.length a = nA -> List.length (f a) = nB) ->
+  (forall b, List.length b = nB -> List.length (g b) = nA) ->
+  (forall a, List.length a = nA -> PA a -> g (f a) = a) ->
+  (forall b, List.length b = nB -> PB b -> f (g b) = b) ->
+  lawful_on (BiMap o f g) nB PB (fun m s => forall a, oget o m s = Ok a -> PA a).
+Proof. exact bimap_lawful_on. Qed.
+Print Assumptions C04_bimap_lawful_on.
+
+(* BiMapI over a lawful lens on an nA-byte field, exposing nB bytes: PutGet for the values that fit the narrower type,
+   GetPut where the field holds such a value, PutPut always; and its Put stays inside the frame of the field lens *)
+Theorem C04_bimapI_lawful_on : forall o nA nB, lawful o nA ->
+  lawful_on (BiMap o (sresize nB) (sresize nA)) nB
+            (representable (Nat.min nA nB))
+            (fun m s => forall a, oget o m s = Ok a -> representable (Nat.min nA nB) a).
+Proof. exact bimapI_lawful_on. Qed.
+Print Assumptions C04_bimapI_lawful_on.
+
+Theorem C04_bimapI_framed : forall o nA nB fp, framed o nA fp -> framed (BiMap o (sresize nB) (sresize nA)) nB fp.
+Proof. exact bimapI_framed. Qed.
+Print Assumptions C04_bimapI_framed.
+
+(* a narrow field exposed as a wider type: GetPut on every arena *)
+Theorem C04_bimapI_widening_get_put : forall o nA nB m s v, lawful o nA -> nA <= nB ->
+  oget (BiMap o (sresize nB) (sresize nA)) m s = Ok v -> oput (BiMap o (sresize nB) (sresize nA)) m s v = Ok m.
+Proof. exact bimapI_widening_get_put. Qed.
+Print Assumptions C04_bimapI_widening_get_put.
+
+(* a wide field exposed as a narrower type: PutGet for every value *)
+Theorem C04_bimapI_narrowing_put_get : forall o nA nB m s v m', lawful o nA -> nB <= nA -> List.length v = nB ->
+  oput (BiMap o (sresize nB) (sresize nA)) m s v = Ok m' -> oget (BiMap o (sresize nB) (sresize nA)) m' s = Ok v.
+Proof. exact bimapI_narrowing_put_get. Qed.
+Print Assumptions C04_bimapI_narrowing_put_get.
+
+(* non-vacuity: int8(-2) as int32 is ff ff ff fe, int16(128) = 80 00 does not fit int8 - it comes back as -128 - and
+   int16(-128) = 80 ff does *)
+Example C04_ex_sresize :
+  sresize 4 [254%Z] = [254; 255; 255; 255]%Z /\ sval [254; 255; 255; 255]%Z = (-2)%Z /\
+  sresize 2 (sresize 1 [128; 0]%Z) = [128; 255]%Z /\ ~ representable 1 [128; 0]%Z /\ representable 1 [128; 255]%Z.
+Proof. exact sresize_examples. Qed.
 
 Theorem C04_getter_never_writes : forall o f m s x,
   oput (Getter o f) m s x = Ok m /\ oget (Getter o f) m s = rmap f (oget o m s).
